@@ -1793,9 +1793,12 @@ def gen_lean():
     if "_AtomArrayBase" not in classes or "AtomArrayStack" not in classes or "AtomArray" not in classes:
         raise ValueError("_AtomArrayBase / AtomArray / AtomArrayStack not found in atoms.py")
 
+    roles = _private_roles(tree)
+
     def method(cls, name):
+        actual = next((k for k, v in roles.items() if v == name), name)   # private helpers by role, not by name
         for n in classes[cls].body:
-            if isinstance(n, ast.FunctionDef) and n.name == name:
+            if isinstance(n, ast.FunctionDef) and n.name == actual:
                 return n
         raise ValueError(f"{cls}.{name} not found")
 
@@ -1912,11 +1915,270 @@ SKEL_PYX = ["__getitem__", "concatenate", "__copy_create__", "__copy_fill__", "_
             "_to_positive_index_array", "_to_index_array"]     # structure/bonds.pyx: index relabelling only
 
 
-def _py_skeleton(fn):
+# ---- structural discovery of the private helpers (their names are not significant)
+ROLE_SITES = [   # (class, caller, canonical label): the private method `caller` invokes on self
+    ("AtomArray", "__getitem__", "_subarray"),
+    ("AtomArray", "__setitem__", "_set_element"),
+    ("AtomArray", "__delitem__", "_del_element"),
+    ("_AtomArrayBase", "__copy_fill__", "_copy_annotations"),
+]
+
+
+def _is_private(name):
+    return name.startswith("_") and not (name.startswith("__") and name.endswith("__"))
+
+
+def _private_roles(tree):
+    """{actual private method name: canonical label}, found by who calls it, not by what it is called."""
+    import ast
+    classes = {n.name: n for n in tree.body if isinstance(n, ast.ClassDef)}
+    defined = {f.name for c in classes.values() for f in c.body if isinstance(f, ast.FunctionDef) and _is_private(f.name)}
+    roles = {}
+    for cls, caller, label in ROLE_SITES:
+        c = classes.get(cls)
+        fn = next((f for f in (c.body if c else []) if isinstance(f, ast.FunctionDef) and f.name == caller), None)
+        if fn is None:
+            raise ValueError(f"{cls}.{caller} not found")
+        called = []
+        for n in ast.walk(fn):
+            if (isinstance(n, ast.Call) and isinstance(n.func, ast.Attribute) and isinstance(n.func.value, ast.Name)
+                    and n.func.value.id == "self" and n.func.attr in defined and n.func.attr not in called):
+                called.append(n.func.attr)
+        if len(called) != 1:
+            raise ValueError(f"{cls}.{caller}: expected exactly one private helper called on self, found {called}")
+        roles[called[0]] = label
+    return roles
+
+
+def _normalise_function(fn, roles):
+    """Behaviour-preserving canonical form of a function (a deep copy): private helper names -> canonical labels,
+    `x.__getitem__(i)` -> `x[i]`, `for k, v in d.items()` -> key loop, chained comparisons split, `not` pushed inwards
+    (De Morgan, negated operator), constants on the right of a comparison, `if c: A else: <raise/return>` -> guard
+    clause, asserts that cannot fire dropped.  Operators, constants, order of checks, classes stay significant."""
+    import ast
+    import copy
+    fn = copy.deepcopy(fn)
+    NEG = {ast.Eq: ast.NotEq, ast.NotEq: ast.Eq, ast.Lt: ast.GtE, ast.GtE: ast.Lt, ast.Gt: ast.LtE, ast.LtE: ast.Gt,
+           ast.Is: ast.IsNot, ast.IsNot: ast.Is, ast.In: ast.NotIn, ast.NotIn: ast.In}
+    FLIP = {ast.Lt: ast.Gt, ast.Gt: ast.Lt, ast.LtE: ast.GtE, ast.GtE: ast.LtE, ast.Eq: ast.Eq, ast.NotEq: ast.NotEq}
+
+    def negate(e):
+        if isinstance(e, ast.UnaryOp) and isinstance(e.op, ast.Not):
+            return e.operand
+        if isinstance(e, ast.Compare) and len(e.ops) == 1 and type(e.ops[0]) in NEG:
+            return ast.Compare(left=e.left, ops=[NEG[type(e.ops[0])]()], comparators=e.comparators)
+        if isinstance(e, ast.BoolOp):
+            return ast.BoolOp(op=ast.Or() if isinstance(e.op, ast.And) else ast.And(), values=[negate(v) for v in e.values])
+        return ast.UnaryOp(op=ast.Not(), operand=e)
+
+    class Expr(ast.NodeTransformer):
+        def visit_Call(self, node):
+            self.generic_visit(node)
+            if (isinstance(node.func, ast.Attribute) and node.func.attr == "__getitem__" and len(node.args) == 1
+                    and not node.keywords):
+                return ast.Subscript(value=node.func.value, slice=node.args[0], ctx=ast.Load())
+            return node
+
+        def visit_Attribute(self, node):
+            self.generic_visit(node)
+            if node.attr in roles:
+                node.attr = roles[node.attr]
+            return node
+
+        def visit_Compare(self, node):
+            self.generic_visit(node)
+            if len(node.ops) > 1:                      # a < b < c  ->  a < b and b < c
+                parts, left = [], node.left
+                for op, right in zip(node.ops, node.comparators):
+                    parts.append(self.orient(ast.Compare(left=left, ops=[op], comparators=[right])))
+                    left = right
+                return ast.BoolOp(op=ast.And(), values=parts)
+            return self.orient(node)
+
+        @staticmethod
+        def orient(c):
+            if isinstance(c.left, ast.Constant) and not isinstance(c.comparators[0], ast.Constant) and type(c.ops[0]) in FLIP:
+                return ast.Compare(left=c.comparators[0], ops=[FLIP[type(c.ops[0])]()], comparators=[c.left])
+            return c
+
+        def visit_UnaryOp(self, node):
+            self.generic_visit(node)
+            if isinstance(node.op, ast.Not):
+                return negate(node.operand)
+            return node
+
+    def subst(body, name, repl):
+        class S(ast.NodeTransformer):
+            def visit_Name(self, node):
+                if node.id == name and isinstance(node.ctx, ast.Load):
+                    return copy.deepcopy(repl)
+                return node
+        return [S().visit(b) for b in body]
+
+    def terminates(stmts):
+        if not stmts:
+            return False
+        last = stmts[-1]
+        if isinstance(last, ast.If):
+            return bool(last.orelse) and terminates(last.body) and terminates(last.orelse)
+        return isinstance(last, (ast.Raise, ast.Return, ast.Continue, ast.Break))
+
+    def size(stmts):
+        return sum(1 + sum(size(getattr(st, f, []) or []) for f in ("body", "orelse")) for st in stmts)
+
+    def nonneg_source(e):
+        return ((isinstance(e, ast.Call) and isinstance(e.func, ast.Name) and e.func.id == "len")
+                or (isinstance(e, ast.Subscript) and isinstance(e.value, ast.Attribute) and e.value.attr == "shape"))
+
+    single = {}      # locals assigned exactly once, from `len(...)` / `x.shape[i]`
+    for n in ast.walk(fn):
+        if isinstance(n, ast.Name) and isinstance(n.ctx, ast.Store):
+            single[n.id] = single.get(n.id, 0) + 1
+    nonneg = {t.id for n in ast.walk(fn) if isinstance(n, ast.Assign) and len(n.targets) == 1
+              for t in n.targets if isinstance(t, ast.Name) and single.get(t.id) == 1 and nonneg_source(n.value)}
+
+    def vacuous_assert(st, prev):
+        t = st.test
+        if isinstance(t, ast.Compare) and len(t.ops) == 1 and isinstance(t.ops[0], ast.GtE) and isinstance(
+                t.comparators[0], ast.Constant) and t.comparators[0].value == 0:
+            left = t.left           # len(x) >= 0, x.shape[i] >= 0 (directly or through a local): cannot fire
+            if isinstance(left, ast.Name) and left.id in nonneg:
+                return True
+            if isinstance(left, ast.Call) and isinstance(left.func, ast.Name) and left.func.id == "len":
+                return True
+            if isinstance(left, ast.Subscript) and isinstance(left.value, ast.Attribute) and left.value.attr == "shape":
+                return True
+        # `assert c` right after `if not c: raise …`
+        if isinstance(prev, ast.If) and not prev.orelse and terminates(prev.body):
+            return ast.dump(negate(copy.deepcopy(prev.test))) == ast.dump(t) or ast.dump(prev.test) == ast.dump(negate(copy.deepcopy(t)))
+        return False
+
+    def block(stmts):
+        out = []
+        for st in stmts:
+            if isinstance(st, ast.Expr) and isinstance(st.value, ast.Constant) and isinstance(st.value.value, str):
+                continue
+            if isinstance(st, ast.For):
+                it = st.iter
+                if (isinstance(st.target, ast.Tuple) and len(st.target.elts) == 2 and isinstance(it, ast.Call)
+                        and isinstance(it.func, ast.Attribute) and it.func.attr == "items" and not it.args
+                        and all(isinstance(e, ast.Name) for e in st.target.elts)):
+                    k, v = st.target.elts
+                    d = it.func.value
+                    stores = [n for b in st.body for n in ast.walk(b) if isinstance(n, ast.Name) and n.id == v.id and isinstance(n.ctx, ast.Store)]
+                    if not stores:
+                        st = ast.For(target=k, iter=d, orelse=st.orelse, body=subst(
+                            st.body, v.id, ast.Subscript(value=copy.deepcopy(d), slice=ast.Name(id=k.id, ctx=ast.Load()), ctx=ast.Load())))
+                st.body = block(st.body)
+                out.append(st)
+            elif isinstance(st, ast.While):
+                st.body = block(st.body)
+                out.append(st)
+            elif isinstance(st, ast.Try):
+                st.body = block(st.body)
+                for h in st.handlers:
+                    h.body = block(h.body)
+                out.append(st)
+            elif isinstance(st, ast.If):
+                body, orelse = block(st.body), block(st.orelse)
+                tb, to = terminates(body), bool(orelse) and terminates(orelse)
+                if tb and to:                              # both leave: the smaller branch (a lone raise first) is the guard
+                    key = lambda b: (size(b), 0 if isinstance(b[-1], ast.Raise) else 1)  # noqa: E731
+                    to = key(orelse) < key(body)
+                    tb = not to
+                elif orelse and not tb and not to and isinstance(st.test, ast.UnaryOp) and isinstance(st.test.op, ast.Not):
+                    st = ast.If(test=st.test.operand, body=st.orelse, orelse=st.body)     # positive test first
+                    body, orelse = orelse, body
+                if orelse and to:                          # if c: A else: <raise>   ->   if not c: <raise>; A
+                    out.append(ast.If(test=negate(st.test), body=orelse, orelse=[]))
+                    out.extend(body)
+                elif orelse and tb:                        # if c: <return> else: B  ->   if c: <return>; B
+                    out.append(ast.If(test=st.test, body=body, orelse=[]))
+                    out.extend(orelse)
+                else:
+                    out.append(ast.If(test=st.test, body=body, orelse=orelse))
+            elif isinstance(st, ast.Assert):
+                if not vacuous_assert(st, out[-1] if out else None):
+                    out.append(st)
+            else:
+                out.append(st)
+        # `if c: return False` + `return True`  ->  `return not c`
+        if (len(out) >= 2 and isinstance(out[-1], ast.Return) and isinstance(out[-1].value, ast.Constant)
+                and out[-1].value.value is True and isinstance(out[-2], ast.If) and not out[-2].orelse
+                and len(out[-2].body) == 1 and isinstance(out[-2].body[0], ast.Return)
+                and isinstance(out[-2].body[0].value, ast.Constant) and out[-2].body[0].value.value is False):
+            out[-2:] = [ast.Return(value=negate(out[-2].test))]
+        # adjacent guards with the same leaving body: `if a: X` `if b: X`  ->  `if a or b: X`
+        merged = []
+        for st in out:
+            if (merged and isinstance(st, ast.If) and isinstance(merged[-1], ast.If) and not st.orelse and not merged[-1].orelse
+                    and terminates(st.body) and [ast.dump(x) for x in st.body] == [ast.dump(x) for x in merged[-1].body]):
+                prev = merged[-1]
+                vals = (prev.test.values if isinstance(prev.test, ast.BoolOp) and isinstance(prev.test.op, ast.Or) else [prev.test]) + \
+                       (st.test.values if isinstance(st.test, ast.BoolOp) and isinstance(st.test.op, ast.Or) else [st.test])
+                merged[-1] = ast.If(test=ast.BoolOp(op=ast.Or(), values=vals), body=prev.body, orelse=[])
+            else:
+                merged.append(st)
+        return merged
+
+    def tail_guard(stmts):
+        """top level only: `if c: return` + rest  ->  `if not c: rest` (falling off the end returns None as well)"""
+        for i, st in enumerate(stmts):
+            if (isinstance(st, ast.If) and not st.orelse and len(st.body) == 1 and isinstance(st.body[0], ast.Return)
+                    and st.body[0].value is None and i + 1 < len(stmts) and not any(
+                        isinstance(n, ast.Return) and n.value is not None for r in stmts[i + 1:] for n in ast.walk(r))):
+                return stmts[:i] + [ast.If(test=negate(st.test), body=tail_guard(stmts[i + 1:]), orelse=[])]
+        return stmts
+
+    counter = [0]
+
+    def assigned(stmts):
+        return {n.id for b in stmts for n in ast.walk(b) if isinstance(n, ast.Name) and isinstance(n.ctx, (ast.Store, ast.Del))}
+
+    def rename(stmts, mapping):
+        class R(ast.NodeTransformer):
+            def visit_Name(self, node):
+                if node.id in mapping:
+                    node.id = mapping[node.id]
+                return node
+        return [R().visit(b) for b in stmts]
+
+    def split_locals(stmts, seen):
+        """A local first assigned inside a branch that ends in return/raise cannot flow out of it: it is a variable of
+        its own (the same spelling reused in another branch, or two spellings for two branches, mean the same)."""
+        for st in stmts:
+            if isinstance(st, ast.If):
+                for blk_name in ("body", "orelse"):
+                    blk = getattr(st, blk_name)
+                    if blk and terminates(blk):
+                        fresh = {v for v in assigned(blk) if v not in seen}
+                        if fresh:
+                            counter[0] += 1
+                            setattr(st, blk_name, rename(blk, {v: f"{v}@{counter[0]}" for v in fresh}))
+                        split_locals(getattr(st, blk_name), set(seen))
+                    else:
+                        split_locals(blk, seen)
+                        seen |= assigned(blk)
+            elif isinstance(st, (ast.For, ast.While, ast.Try)):
+                seen |= assigned([st])
+                for blk in [st.body] + [h.body for h in getattr(st, "handlers", [])]:
+                    split_locals(blk, seen)
+            else:
+                seen |= assigned([st])
+
+    fn = Expr().visit(fn)
+    fn.body = tail_guard(block(fn.body))
+    params = {a.arg for a in fn.args.posonlyargs + fn.args.args + fn.args.kwonlyargs}
+    split_locals(fn.body, set(params))
+    return ast.fix_missing_locations(fn)
+
+
+def _py_skeleton(fn, roles=None):
     """Normalised control-flow skeleton of a function: one line per statement, indentation as depth, docstrings and
     message strings dropped, local names alpha-renamed by first occurrence (a rename, a comment, another message stay
     quiet; an operator, constant, attribute, helper, exception class, default value or the order of steps does not)."""
     import ast
+    fn = _normalise_function(fn, roles or {})
     local = {}
     args = fn.args
     for a in args.posonlyargs + args.args + args.kwonlyargs + ([args.vararg] if args.vararg else []) + ([args.kwarg] if args.kwarg else []):
@@ -1925,13 +2187,11 @@ def _py_skeleton(fn):
     for n in ast.walk(fn):
         if isinstance(n, ast.Name) and isinstance(n.ctx, (ast.Store, ast.Del)) and n.id not in local and n.id != "self":
             local[n.id] = None
-    order = []
-    for n in ast.walk(fn):          # first occurrence order (walk is breadth-first: use line/col)
-        if isinstance(n, ast.Name) and n.id in local and local[n.id] is None:
-            order.append((n.lineno, n.col_offset, n.id))
-    for _, _, name in sorted(order):
-        if local[name] is None:
-            local[name] = f"v{sum(1 for v in local.values() if v) + 1}"
+    class First(ast.NodeVisitor):      # first occurrence in source order (depth-first)
+        def visit_Name(self, node):
+            if node.id in local and local[node.id] is None:
+                local[node.id] = f"v{sum(1 for v in local.values() if v) + 1}"
+    First().visit(fn)
 
     class Norm(ast.NodeTransformer):
         def visit_Name(self, node):
@@ -2032,10 +2292,12 @@ def _skeletons():
             if c is None:
                 raise ValueError(f"{file}: class {cls} not found")
             body = c.body
-        f = next((n for n in body if isinstance(n, ast.FunctionDef) and n.name == fn), None)
+        roles = _private_roles(trees[file]) if file == "structure/atoms.py" else {}
+        actual = next((k for k, v in roles.items() if v == fn), fn)       # private helpers are found by their role
+        f = next((n for n in body if isinstance(n, ast.FunctionDef) and n.name == actual), None)
         if f is None:
             raise ValueError(f"{file}: {cls + '.' if cls else ''}{fn} not found")
-        res.append(((cls + "." if cls else "") + fn, _py_skeleton(f)))
+        res.append(((cls + "." if cls else "") + fn, _py_skeleton(f, roles)))
     pyx = open(os.path.join(paths.SRC, "biotite/structure/bonds.pyx")).read()
     for fn in SKEL_PYX:
         res.append(("bonds.pyx:" + fn, _pyx_skeleton(pyx, fn)))
